@@ -1,16 +1,432 @@
 /-
   C07 — biases compose with every method and keep the working data coherent.
-  (Listener-level theorems; the per-bias preservation theorems are in C15–C19.)
+
+  Theorems about the end-to-end model `Model/Decide.lean` (`decide` = the whole `MakeDecision`, tied to the
+  real code on whole requests by the `decide` correspondence stage of harness/main/c07e2e.go):
+    * C02a on the composition: the model reads the random streams only at the seeds the request names;
+    * frame over any bias list: alternatives and their considered / not-considered split never change,
+      criteria disappear or appear only as the bias reports say;
+    * the listener seams that make additions fail for OWA and Choquet (registered findings).
+  The per-bias theorems are in C15–C19; helper lemmas in Lemmas/Decide*.lean.
 -/
 import Rdm.Model.Listener
 import Rdm.Spec.C07
+import Rdm.Lemmas.DecideFrame
+import Rdm.Lemmas.DecideCoherent
+import Rdm.Lemmas.DecideChoquet
+import Rdm.Lemmas.DecideTotal
+import Rdm.Lemmas.DecideValues
+import Rdm.Props.C15
 namespace Rdm.Props.C07
 open Rdm
+variable {α : Type} [Num α]
+
+/-! ## the listener seams (known findings) -/
 
 /-- Known finding, machine-checked on the model (= the code, by correspondence): the OWA listener can
     never merge what its own `OnCriterionAdded` returns — `Merge` fails for every addition. -/
 theorem owa_merge_always_fails {α : Type} [Num α] (wc : List (WCrit α)) (add : Addition α) :
     ∃ e, mergeParams (.owa wc) add = .error e := by
   cases add <;> exact ⟨_, rfl⟩
+
+/-- Known finding, machine-checked: the Choquet analogue.  `OnCriterionAdded` of the Choquet listener copies
+    the capacity of every subset of the OLD criteria into its result, `Merge` refuses keys both sides have, so
+    — as soon as there is one criterion — `Merge` fails on everything `OnCriterionAdded` returns.  (With no
+    criterion left the addition goes through: the only way a Choquet request survives an adding bias.) -/
+theorem choquet_merge_always_fails {α : Type} [Num α] {w : KMap α} {c₀ : Crit α} {rest : List (Crit α)}
+    {crit ref : Crit α} {d d' : Draws α} {add : Addition α}
+    (h : onAdded (.choquet w (c₀ :: rest)) crit ref d = .ok (add, d')) :
+    ∃ e, mergeParams (.choquet w (c₀ :: rest)) add = .error e :=
+  decideChoquet_merge_fails h
+
+/-- … and what the other five listeners return is mergeable in the sense that matters for coherence: the
+    addition parameterises exactly the new criterion, and merging it into parameters that cover the criteria
+    yields parameters that cover the criteria and the new one. -/
+theorem addition_is_merged_for_the_five_other_methods {mp₀ mp mp' : MParams α} {crit : List (Crit α)}
+    {newC ref : Crit α} {g g' : Draws α} {add : Addition α}
+    (hadd : onAdded mp₀ newC ref g = .ok (add, g')) (hm : mergeParams mp add = .ok mp')
+    (hadm : admitsAdditions mp = true) (hcov : Spec.C07.covers crit mp = true) :
+    Spec.C07.covers (crit ++ [newC]) mp' = true :=
+  decideMerge_covers (decideOnAdded_for hadd) hm hadm hcov
+
+/-! ## C02a: the composition reads the streams only at the seeds the request names -/
+
+/-- Everything of `MakeDecision` before `Evaluate` (validation, `ChooseBiases`, `processBiases` through all
+    six biases) reads the random streams only at `biasApplyRandomSeed` and at the seeds in the biases' props
+    (`randomSeed`, `newCriterionRandomSeed`, anchoring applier `randomSeed + i`). -/
+theorem pipeline_reads_only_request_seeds (exp : α → α) (req : Request α) (g₁ g₂ : Int → Draws α)
+    (h : ∀ k ∈ req.seeds, g₁ k = g₂ k) : pipeline exp req g₁ = pipeline exp req g₂ :=
+  decidePipeline_congr exp req h
+
+/-- `Evaluate` reads the streams only at the `randomSeed` of the method parameters it is handed. -/
+theorem evaluate_reads_only_method_seed (g₁ g₂ : Int → Draws α) (d : DMP α)
+    (h : ∀ k ∈ d.mp.seed.toList, g₁ k = g₂ k) : evaluate g₁ d = evaluate g₂ d :=
+  decideEvaluate_congr _ d h
+
+/-- No sequence of biases changes the `randomSeed` of the method's parameters: the seed `Evaluate` uses
+    after the pipeline is the one of the request. -/
+theorem pipeline_keeps_method_seed {exp : α → α} {req : Request α} {g : Int → Draws α} {fin : DMP α}
+    {outs : List (BiasOut α (Report α))} (h : pipeline exp req g = .ok (fin, outs)) :
+    ∃ mp, req.mp = some mp ∧ fin.mp.seed = mp.seed := by
+  unfold pipeline at h
+  obtain ⟨⟨params, chosen⟩, hp, h⟩ := bind_eq_ok.mp h
+  obtain ⟨_, mp, hmp, hpp, _⟩ := decidePrepare_ok hp
+  refine ⟨mp, hmp, ?_⟩
+  have := decideLoop_seed chosen params fin _ outs h
+  rw [this]
+  unfold prepareParams at hpp
+  obtain ⟨co, _, hpp⟩ := bind_eq_ok.mp hpp
+  simp only [pure, Except.pure, Except.ok.injEq] at hpp
+  subst hpp
+  rfl
+
+/-- **C02a for the whole decision**: if two stream functions agree on every seed the request names
+    (`biasApplyRandomSeed`, each bias's `randomSeed` / `newCriterionRandomSeed` / anchoring `randomSeed + i`,
+    the method's `randomSeed`) then `MakeDecision` gives the same result — accepted with the same response or
+    rejected alike. -/
+theorem decideWith_reads_only_request_seeds (exp : α → α) (o : List (WCrit α) → List (WCrit α))
+    (req : Request α) (g₁ g₂ : Int → Draws α) (h : ∀ k ∈ req.seeds, g₁ k = g₂ k) :
+    decideWith exp o req g₁ = decideWith exp o req g₂ := by
+  unfold decideWith
+  rw [decidePipeline_congr exp req h]
+  apply decideBind_congr
+  intro r hr
+  obtain ⟨fin, outs⟩ := r
+  obtain ⟨mp, hmp, hseed⟩ := pipeline_keeps_method_seed hr
+  dsimp only
+  have : evaluateWith o g₁ fin = evaluateWith o g₂ fin := by
+    apply decideEvaluate_congr
+    intro k hk
+    apply h
+    rw [hseed] at hk
+    unfold Request.seeds
+    rw [hmp]
+    simp only [List.mem_append, List.mem_cons]
+    exact Or.inr hk
+  rw [this]
+
+/-- the same for seed tables: two tables that give the same stream for every seed of the request -/
+theorem decide_reads_only_request_seeds (exp : α → α) (req : Request α) (s₁ s₂ : Seeds α)
+    (h : ∀ k ∈ req.seeds, genOf s₁ k = genOf s₂ k) : Rdm.decide exp req s₁ = Rdm.decide exp req s₂ :=
+  decideWith_reads_only_request_seeds exp _ req _ _ h
+
+/-! ## frame over a whole bias sequence -/
+
+/-- The alternatives and their considered / not-considered split never change: after any sequence of biases
+    the state handed to the method has the same considered ids and the same not-considered ids, in the
+    same order, as the state built from the request. -/
+theorem pipeline_keeps_alternatives_and_split {exp : α → α} {req : Request α} {g : Int → Draws α}
+    {fin : DMP α} {outs : List (BiasOut α (Report α))} (h : pipeline exp req g = .ok (fin, outs)) :
+    fin.co.map (·.id) = req.chosen ∧
+    fin.nc.map (·.id) = (req.known.filter fun a => !req.chosen.contains a.id).map (·.id) := by
+  unfold pipeline at h
+  obtain ⟨⟨params, chosen⟩, hp, h⟩ := bind_eq_ok.mp h
+  obtain ⟨_, mp, _, hpp, _⟩ := decidePrepare_ok hp
+  obtain ⟨e1, e2⟩ := decideLoop_ids chosen params fin _ outs h
+  unfold prepareParams at hpp
+  obtain ⟨co, hco, hpp⟩ := bind_eq_ok.mp hpp
+  simp only [pure, Except.pure, Except.ok.injEq] at hpp
+  subst hpp
+  refine ⟨?_, e2⟩
+  rw [e1]
+  -- the considered alternatives are fetched by id, in the order of `choseToMake`
+  obtain ⟨hl, hpz⟩ := mapM_ok hco
+  apply List.ext_getElem (by simp [hl])
+  intro i h1 h2
+  simp only [List.getElem_map]
+  have hi : i < req.chosen.length := h2
+  have hi' : i < co.length := by simpa using h1
+  have hz : (req.chosen[i], co[i]) ∈ req.chosen.zip co := by
+    rw [List.mem_iff_getElem]; exact ⟨i, by simp only [List.length_zip]; omega, by simp⟩
+  have := (fetchAlt_ok (hpz _ hz)).2
+  simpa using this
+
+/-- the same for one step, for every bias: ids and split are kept -/
+theorem every_bias_keeps_alternatives_and_split {exp : α → α} {g : Int → Draws α} {name : String}
+    {p : BProps α} {orig cur res : DMP α} {rep : Report α}
+    (h : applyBias exp g name p orig cur = .ok (res, rep)) :
+    res.co.map (·.id) = cur.co.map (·.id) ∧ res.nc.map (·.id) = cur.nc.map (·.id) :=
+  decideApplyBias_ids h
+
+/-- Criteria disappear or appear only as the bias reports them (one step): the criteria the report names as
+    omitted followed by the new criteria are a permutation of the old criteria followed by the criteria the
+    report names as added. -/
+theorem every_bias_changes_criteria_as_reported {exp : α → α} {g : Int → Draws α} {name : String}
+    {p : BProps α} {orig cur res : DMP α} {rep : Report α}
+    (h : applyBias exp g name p orig cur = .ok (res, rep)) :
+    (rep.omittedIds ++ res.crit.map (·.id)).Perm (cur.crit.map (·.id) ++ rep.addedIds) :=
+  decideApplyBias_crit h
+
+/-- … and over the whole sequence: criteria after the pipeline = criteria of the request − everything the
+    response's bias reports name as omitted + everything they name as added. -/
+theorem pipeline_changes_criteria_as_reported {exp : α → α} {req : Request α} {g : Int → Draws α}
+    {fin : DMP α} {outs : List (BiasOut α (Report α))} (h : pipeline exp req g = .ok (fin, outs)) :
+    (outsOmitted outs ++ fin.crit.map (·.id)).Perm (req.crit.map (·.id) ++ outsAdded outs) := by
+  unfold pipeline at h
+  obtain ⟨⟨params, chosen⟩, hp, h⟩ := bind_eq_ok.mp h
+  obtain ⟨_, mp, _, hpp, _⟩ := decidePrepare_ok hp
+  have := decideLoop_crit chosen params fin _ outs h
+  unfold prepareParams at hpp
+  obtain ⟨co, _, hpp⟩ := bind_eq_ok.mp hpp
+  simp only [pure, Except.pure, Except.ok.injEq] at hpp
+  subst hpp
+  exact this
+
+/-- the response's biases list has one entry per enabled bias of the request, names and probabilities echoed -/
+theorem response_lists_every_enabled_bias {exp : α → α} {req : Request α} {g : Int → Draws α}
+    {fin : DMP α} {outs : List (BiasOut α (Report α))} (h : pipeline exp req g = .ok (fin, outs)) :
+    outs.map (·.name) = (req.biases.filter (!·.disabled)).map (·.name) := by
+  unfold pipeline at h
+  obtain ⟨⟨params, chosen⟩, hp, h⟩ := bind_eq_ok.mp h
+  obtain ⟨_, mp, _, _, hch⟩ := decidePrepare_ok hp
+  dsimp only at h
+  have h1 : outs.map (·.name) = chosen.map (·.name) := decideLoop_names chosen params params fin _ outs h
+  rw [h1]
+  exact decideChoose_names hch
+
+/-! ## coherence (`Spec.C07.coherent`, the checker the driver runs on the states the real code hands on)
+
+Excluded classes, stated explicitly (each a registered finding; the model mirrors the code, the e2e tie
+shows they fail alike):
+  * OWA + any criterion-adding bias          — `owa_merge_always_fails`
+  * Choquet + any criterion-adding bias      — `choquet_merge_always_fails`
+  * criteria mixing after the state changed  — mixing reads `original`; only first-bias mixing is covered -/
+
+/-- `Spec.C07.coherent` says: distinct criteria ids, every known alternative has every current criterion,
+    the parameters cover every current criterion -/
+theorem coherent_spelled_out (d : DMP α) :
+    Spec.C07.coherent d = true ↔
+      (d.crit.map (·.id)).Nodup ∧ (∀ a ∈ d.co ++ d.nc, ∀ c ∈ d.crit, a.vals.has c.id = true) ∧
+        Spec.C07.covers d.crit d.mp = true := by
+  rw [coherent_iff]
+  exact ⟨fun h => ⟨h.nodup, h.values, h.covers⟩, fun h => ⟨h.1, h.2.1, h.2.2⟩⟩
+
+/-- an accepted request starts coherent as soon as its parsed parameters cover its criteria (the part
+    `ParseParams` is responsible for; ids and values are guaranteed by `Criteria.Validate` /
+    `validateAlternatives`) -/
+theorem accepted_request_starts_coherent {req : Request α} {params : DMP α}
+    {chosen : List (Chosen α (BProps α))} (h : prepare req = .ok (params, chosen))
+    (hcov : Spec.C07.covers params.crit params.mp = true) : Spec.C07.coherent params = true :=
+  (coherent_iff _).mpr (decidePrepare_coherent h hcov)
+
+/-- omission preserves coherence for every method — it even establishes the values and coverage clauses from
+    distinct ids alone (the alternatives are rebuilt, the listener restricts the parameters) -/
+theorem omission_preserves_coherence {exp : α → α} {g : Int → Draws α} {p : BProps α} {orig cur res : DMP α}
+    {rep : Report α} (hc : Spec.C07.coherent cur = true)
+    (h : applyBias exp g Facts.biasOmission p orig cur = .ok (res, rep)) : Spec.C07.coherent res = true :=
+  (coherent_iff _).mpr (decideApplyBias_coherent h ((coherent_iff _).mp hc) (Or.inl rfl))
+
+/-- preference reversal preserves coherence for every method -/
+theorem reversal_preserves_coherence {exp : α → α} {g : Int → Draws α} {p : BProps α} {orig cur res : DMP α}
+    {rep : Report α} (hc : Spec.C07.coherent cur = true)
+    (h : applyBias exp g Facts.biasReversal p orig cur = .ok (res, rep)) : Spec.C07.coherent res = true :=
+  (coherent_iff _).mpr (decideApplyBias_coherent h ((coherent_iff _).mp hc) (Or.inr (Or.inl rfl)))
+
+/-- fatigue preserves coherence for every method -/
+theorem fatigue_preserves_coherence {exp : α → α} {g : Int → Draws α} {p : BProps α} {orig cur res : DMP α}
+    {rep : Report α} (hc : Spec.C07.coherent cur = true)
+    (h : applyBias exp g Facts.biasFatigue p orig cur = .ok (res, rep)) : Spec.C07.coherent res = true :=
+  (coherent_iff _).mpr (decideApplyBias_coherent h ((coherent_iff _).mp hc) (Or.inr (Or.inr (Or.inl rfl))))
+
+/-- anchoring with the inline applier preserves coherence for every method -/
+theorem inline_anchoring_preserves_coherence {exp : α → α} {g : Int → Draws α} {q : AnchProps α}
+    {orig cur res : DMP α} {rep : Report α} (hc : Spec.C07.coherent cur = true)
+    (hq : q.applier.fn = Facts.anchoringInline)
+    (h : applyBias exp g Facts.biasAnchoring (.anch q) orig cur = .ok (res, rep)) :
+    Spec.C07.coherent res = true :=
+  (coherent_iff _).mpr (decideApplyBias_coherent h ((coherent_iff _).mp hc)
+    (Or.inr (Or.inr (Or.inr (Or.inl ⟨rfl, Or.inl ⟨q, rfl, hq⟩⟩)))))
+
+/-- anchoring with the newCriterion applier preserves coherence for the five methods that admit additions -/
+theorem newCriterion_anchoring_preserves_coherence {exp : α → α} {g : Int → Draws α} {p : BProps α}
+    {orig cur res : DMP α} {rep : Report α} (hc : Spec.C07.coherent cur = true)
+    (hadm : admitsAdditions cur.mp = true)
+    (h : applyBias exp g Facts.biasAnchoring p orig cur = .ok (res, rep)) : Spec.C07.coherent res = true :=
+  (coherent_iff _).mpr (decideApplyBias_coherent h ((coherent_iff _).mp hc)
+    (Or.inr (Or.inr (Or.inr (Or.inl ⟨rfl, Or.inr hadm⟩)))))
+
+/-- concealment preserves coherence for the five methods that admit additions -/
+theorem concealment_preserves_coherence {exp : α → α} {g : Int → Draws α} {p : BProps α}
+    {orig cur res : DMP α} {rep : Report α} (hc : Spec.C07.coherent cur = true)
+    (hadm : admitsAdditions cur.mp = true)
+    (h : applyBias exp g Facts.biasConcealment p orig cur = .ok (res, rep)) : Spec.C07.coherent res = true :=
+  (coherent_iff _).mpr (decideApplyBias_coherent h ((coherent_iff _).mp hc)
+    (Or.inr (Or.inr (Or.inr (Or.inr (Or.inl ⟨rfl, hadm⟩))))))
+
+/-- criteria mixing as the FIRST state-changing bias (`current` is still `original`) preserves coherence for
+    the five methods that admit additions.
+    Full statement (false on the code, registered finding `mixing-after-state-change`): the same for any
+    `orig`.  Mixing selects the two criteria, ranks, and rebuilds every alternative from `orig`; after an
+    omission the omitted values come back, after an addition the added values are lost. -/
+theorem first_bias_mixing_preserves_coherence_partial {exp : α → α} {g : Int → Draws α} {p : BProps α}
+    {cur res : DMP α} {rep : Report α} (hc : Spec.C07.coherent cur = true)
+    (hadm : admitsAdditions cur.mp = true)
+    (h : applyBias exp g Facts.biasMixing p cur cur = .ok (res, rep)) : Spec.C07.coherent res = true :=
+  (coherent_iff _).mpr (decideApplyBias_coherent h ((coherent_iff _).mp hc)
+    (Or.inr (Or.inr (Or.inr (Or.inr (Or.inr ⟨rfl, hadm, rfl⟩))))))
+
+/-- the five methods whose listener admits an addition -/
+theorem admitting_methods (mp : MParams α) :
+    admitsAdditions mp = true ↔ (∀ wc, mp ≠ .owa wc) ∧ (∀ w cs, mp ≠ .choquet w cs) := by
+  cases mp <;> simp [admitsAdditions]
+
+/-- **Preservation over a whole sequence.**  After any sequence of omission / reversal / fatigue / inline
+    anchoring — and, for the five admitting methods, also concealment and anchoring with any applier — the
+    state handed to the method is coherent.
+    Full statement (false on the code for the excluded classes above): the same for every sequence of the six
+    biases and every method. -/
+theorem pipeline_preserves_coherence_partial {exp : α → α} {g : Int → Draws α} {orig cur fin : DMP α}
+    {chosen : List (Chosen α (BProps α))} {d : Draws α} {outs : List (BiasOut α (Report α))}
+    (hall : ∀ b ∈ chosen, SafeEntry (admitsAdditions cur.mp) b) (hc : Spec.C07.coherent cur = true)
+    (h : processLoop (applyBias exp g) orig chosen cur d = .ok (fin, outs)) :
+    Spec.C07.coherent fin = true :=
+  (coherent_iff _).mpr (decideLoop_coherent chosen cur fin d outs hall ((coherent_iff _).mp hc) h)
+
+/-- the hypotheses of the preservation theorems are satisfiable: a two-criteria weighted-sum state is coherent -/
+example : Spec.C07.coherent (α := Rat)
+    ⟨[], [⟨"a", [("c0", 1), ("c1", 2)]⟩], [⟨"c0", "gain", none⟩, ⟨"c1", "cost", none⟩],
+     .ws [⟨⟨"c0", "gain", none⟩, 1⟩, ⟨⟨"c1", "cost", none⟩, 2⟩]⟩ = true := by decide +kernel
+
+/-! ## earlier value changes remain in force -/
+
+/-- the biases that do not deliberately rewrite values leave the value of every criterion that is current
+    before and after the step untouched, for every known alternative — so whatever an earlier bias wrote
+    (a reversal, a fatigue blur, an inline anchoring shift, an added criterion's values) stays in force:
+    criteria omission (every method) -/
+theorem omission_keeps_earlier_values {exp : α → α} {g : Int → Draws α} {p : BProps α} {orig cur res : DMP α}
+    {rep : Report α} (h : applyBias exp g Facts.biasOmission p orig cur = .ok (res, rep)) :
+    ValuesKept cur res := by
+  obtain ⟨_, _, _, _, _, _, hb⟩ := decideApplyBias_inv_omission h
+  exact decideOmission_values hb
+
+/-- … concealment -/
+theorem concealment_keeps_earlier_values {exp : α → α} {g : Int → Draws α} {p : BProps α}
+    {orig cur res : DMP α} {rep : Report α} (hc : Spec.C07.coherent cur = true)
+    (h : applyBias exp g Facts.biasConcealment p orig cur = .ok (res, rep)) : ValuesKept cur res := by
+  obtain ⟨_, _, _, _, hb⟩ := decideApplyBias_inv_conceal h
+  exact decideConceal_values ((coherent_iff _).mp hc) hb
+
+/-- … anchoring with the newCriterion applier -/
+theorem newCriterion_anchoring_keeps_earlier_values {exp : α → α} {g : Int → Draws α} {q : AnchProps α}
+    {orig cur res : DMP α} {rep : Report α} (hc : Spec.C07.coherent cur = true)
+    (hq : q.applier.fn = Facts.anchoringNewCriterion)
+    (h : applyBias exp g Facts.biasAnchoring (.anch q) orig cur = .ok (res, rep)) : ValuesKept cur res := by
+  obtain ⟨q', _, hp, _, hb⟩ := decideApplyBias_inv_anchoring h
+  cases hp
+  obtain ⟨b, hfront, hi | hn⟩ := decideAnchoring_cases hb
+  · rw [hq] at hi; exact absurd hi.1 (by decide)
+  · exact decideNewCriterion_values ((coherent_iff _).mp hc)
+      (fun x hx => ((anchoringFront_diffs hfront).2 x hx).1) hn.2
+
+/-- … criteria mixing as the first state-changing bias -/
+theorem first_bias_mixing_keeps_values_partial {exp : α → α} {g : Int → Draws α} {p : BProps α}
+    {cur res : DMP α} {rep : Report α} (hc : Spec.C07.coherent cur = true)
+    (h : applyBias exp g Facts.biasMixing p cur cur = .ok (res, rep)) : ValuesKept cur res := by
+  obtain ⟨_, _, _, _, hb⟩ := decideApplyBias_inv_mixing h
+  exact decideMixingFirst_values ((coherent_iff _).mp hc) hb
+
+/-- **The excluded class, as a theorem about the model (= the code, by the e2e tie).**  Criteria mixing rebuilds
+    every alternative from `original`: if `current` holds a criterion the alternatives of `original` have no
+    value for — one added by an earlier concealment or newCriterion anchoring — then, whenever mixing acts
+    (two or more current criteria, at least one known alternative), the state it hands on is not coherent.
+    (Registered finding `mixing-after-state-change`.) -/
+theorem mixing_after_an_addition_breaks_coherence {exp : α → α} {g : Int → Draws α} {p : BProps α}
+    {orig cur res : DMP α} {rep : Report α} {k : Crit α}
+    (h : applyBias exp g Facts.biasMixing p orig cur = .ok (res, rep)) (h2 : 2 ≤ cur.crit.length)
+    (hk : k ∈ cur.crit) (hmiss : ∀ a ∈ orig.co ++ orig.nc, a.vals.has k.id = false)
+    (hne : cur.co ++ cur.nc ≠ []) : Spec.C07.coherent res = false := by
+  obtain ⟨_, _, _, _, hb⟩ := decideApplyBias_inv_mixing h
+  have := decideMixing_after_addition_incoherent hb h2 hk hmiss hne
+  rw [← coherent_iff] at this
+  simpa using this
+
+/-! ## progress: the combination is answered, not rejected
+
+Full statement (false on the code for the excluded classes of the coherence section, and not attempted here
+for the orderings that consume random numbers, the Choquet / OWA / weighted-sum / satisfaction rankings and
+the three adding biases): for a coherent state, every method and every sequence of the six biases with valid
+props, `processBiases` does not fail.  Proved: the three biases that never add a criterion, per step for
+(almost) every method, and over whole sequences for the methods whose listener ranks by its own weights.
+
+While proving it: coherence as the property states it (a value for *every current criterion*) is not enough for
+the weighted sum — its listener's ranking looks up the weight of every criterion *an alternative has a value
+for* (`PrepareCumulatedWeightsMap` ranges over the alternative's map), so a request whose alternatives carry a
+value for an undeclared criterion is accepted without biases and rejected with any ranking-based bias
+(confirmed on the real code; the e2e tie generates such requests, class `undeclared-value`). -/
+
+/-- fatigue cannot fail on a coherent state (every method): registered function, non-zero bounding scale,
+    one random number per alternative and criterion -/
+theorem fatigue_never_fails {exp : α → α} {fn : FatigueFn α} {b : Bounding α} {cur : DMP α} {d : Draws α}
+    (hc : Spec.C07.coherent cur = true) (hfn : ∀ n, fn ≠ .unknown n) (hb : (b.scaling == Num.zero) = false)
+    (hd : (cur.co.length + cur.nc.length) * cur.crit.length ≤ d.length) :
+    ∃ res rep, fatigueApply exp fn b cur d = .ok (res, rep) :=
+  decideFatigue_total ((coherent_iff _).mp hc) hfn hb hd
+
+/-- preference reversal cannot fail on a coherent state once the criteria to reverse are selected (every method) -/
+theorem reversal_never_fails_after_selection {sel : List (Crit α)} {cur : DMP α}
+    (hc : Spec.C07.coherent cur = true) (hsel : ∀ c ∈ sel, c ∈ cur.crit) :
+    ∃ res rep, reverseSelected sel cur = .ok (res, rep) :=
+  decideReverseSelected_total ((coherent_iff _).mp hc) hsel
+
+/-- criteria omission cannot fail on a coherent state once the ordering is split (every method but the Choquet
+    integral, whose `OnCriteriaRemoved` is not covered here; the levels function must be one the listener
+    registry knows) -/
+theorem omission_never_fails_after_split_partial {c : SplitCond α} {ordered om kept : List (Crit α)} {cur : DMP α}
+    (hc : Spec.C07.coherent cur = true) (hk : listenerKnowsLevels cur.mp = true) (hnc : notChoquet cur.mp = true)
+    (hs : c.split ordered = .ok (om, kept)) (hsub : ∀ x ∈ kept, x ∈ cur.crit) :
+    ∃ res, omitCriteria c ordered cur = .ok (res, om) :=
+  decideOmit_total ((coherent_iff _).mp hc) hk hnc hs hsub
+
+/-- the orderings that draw no random number (default, weakest, strongest) cannot fail when the parameters
+    cover the criteria, for the listeners that rank by their own weights (electreIII, majority, aspect elimination) -/
+theorem deterministic_ordering_never_fails_partial {eps : α} {o : String} {d : DMP α} {dr : Draws α}
+    (hcov : Spec.C07.covers d.crit d.mp = true) (hr : ranksByOwnWeights d.mp = true)
+    (ho : deterministicOrdering o) : ∃ ordered, orderCriteria eps o d dr = .ok ordered :=
+  decideOrder_total hcov hr ho
+
+/-- **`decide_total_partial`**: an accepted request (validation, parsed parameters covering the criteria, known
+    biases) of electreIII / majority / aspect elimination whose enabled biases are omission / reversal / fatigue
+    with valid props — valid split condition with the pivot inside `[0, n]` for every `n` up to the number of
+    criteria, deterministic ordering, registered fatigue function, non-zero bounding scale — is carried through
+    `processBiases` without an error, whichever biases fire, and the state handed to the method is coherent.
+    Stream prefixes must be long enough (the harness supplies finite prefixes): one number per enabled bias for
+    the activation, one per alternative and criterion for a fatigue. -/
+theorem decide_total_partial {exp : α → α} {req : Request α} {g : Int → Draws α} {params : DMP α}
+    {chosen : List (Chosen α (BProps α))} (hprep : prepare req = .ok (params, chosen))
+    (hcov : Spec.C07.covers params.crit params.mp = true)
+    (hm : ranksByOwnWeights params.mp = true) (hk : listenerKnowsLevels params.mp = true)
+    (hall : ∀ b ∈ chosen, TotalEntry params.crit.length b)
+    (hd : chosen.length ≤ (g req.biasSeed).length)
+    (hg : ∀ k, (params.co.length + params.nc.length) * params.crit.length ≤ (g k).length) :
+    ∃ fin outs, pipeline exp req g = .ok (fin, outs) ∧ Spec.C07.coherent fin = true := by
+  have hc := decidePrepare_coherent hprep hcov
+  obtain ⟨fin, outs, h⟩ := decideLoop_total (exp := exp) (g := g) (orig := params) chosen params (g req.biasSeed)
+    hall hc hm hk (Nat.le_refl _) hd hg
+  refine ⟨fin, outs, ?_, ?_⟩
+  · unfold pipeline
+    rw [hprep]
+    exact h
+  · refine (coherent_iff _).mpr (decideLoop_coherent chosen params fin _ outs ?_ hc h)
+    intro b hb
+    rcases hall b hb with ⟨hname, _⟩ | ⟨hname | hname, _⟩
+    · exact Or.inr (Or.inr (Or.inl hname))
+    · exact Or.inl hname
+    · exact Or.inr (Or.inl hname)
+
+/-- the hypotheses on a split entry are satisfiable: the default clamps with any ratio in [0, 1] keep the pivot
+    inside `[0, n]` for every `n` -/
+example (name : String) (hname : name = Facts.biasOmission ∨ name = Facts.biasReversal) (N : Nat)
+    (hN : (N : Int) ≤ maxInt64) :
+    TotalEntry (α := Rat) N ⟨name, 1, .split ⟨1 / 2, 0, maxInt64⟩ "" 7⟩ := by
+  refine Or.inr ⟨hname, ⟨1 / 2, 0, maxInt64⟩, "", 7, rfl, by decide +kernel, Or.inl rfl, ?_⟩
+  intro n hn
+  have := Rdm.Props.C15.pivot_default (1 / 2) n (by norm_num) (by norm_num) (by omega)
+  exact ⟨this.2.1, this.2.2⟩
+
+/-- … and on a fatigue entry -/
+example (N : Nat) : TotalEntry (α := Rat) N ⟨Facts.biasFatigue, 1, .fatigue (.const (1 / 8)) ⟨-1, false⟩ 3⟩ := by
+  refine Or.inl ⟨rfl, .const (1 / 8), ⟨-1, false⟩, 3, rfl, ?_, by decide +kernel⟩
+  intro n h
+  cases h
 
 end Rdm.Props.C07
